@@ -67,6 +67,7 @@ func Minimal() map[string][]client.Object {
 	)
 	// 5. an INVALID Gateway (here: its GatewayClass object does not exist) has no listeners in the graph, so a parentRef that
 	//    names an existing listener is reported NoMatchingParent, while the parentRef without sectionName gets InvalidGateway
+	//    (regression input: both entries say Accepted=False, which is the truth; C07 does not prescribe the reason — must be quiet)
 	var noClass []client.Object
 	for _, o := range base() {
 		if _, isClass := o.(*gatewayv1.GatewayClass); !isClass {
@@ -80,6 +81,7 @@ func Minimal() map[string][]client.Object {
 	)
 	// 6. a parentRef to an IGNORED Gateway (younger Gateway of our class) that names one of ITS listeners: the section name is
 	//    looked up among the WINNING Gateway's listeners, so the entry says NoMatchingParent; without sectionName: GatewayIgnored
+	//    (regression input, must be quiet: Accepted=False is the truth either way)
 	out["ignored-gateway-section"] = append(base(),
 		p.Gateway("default", "gw", p.DefaultClass, 2, same(p.Listener{Name: "http", Port: 80, Protocol: "HTTP"})...),
 		p.Gateway("default", "gw2", p.DefaultClass, 5, same(p.Listener{Name: "web", Port: 8080, Protocol: "HTTP"})...),
